@@ -873,6 +873,7 @@ class SimOS:
         return sorted(p[len(base):] for p in self._sim.fs.dir if p.startswith(base) and '/' not in p[len(base):])
 
     def umask(self, m):
+        self._sim.event('umask', m)     # a scheduling point: the umask is process-wide state
         old = self._sim.fs.umask
         self._sim.fs.umask = m
         return old
@@ -899,7 +900,19 @@ class SimOS:
             _raise(f)
         sim.fs.ftruncate(fd, length)
 
+    def posix_fallocate(self, fd, offset, length):
+        # reserve blocks: the file grows (zero-filled) to offset+length when it is shorter
+        sim = self._sim
+        f = sim.event('fallocate', fd)
+        if f is not None and f[0] == 'errno':
+            _raise(f)
+        ino = sim.fs.inodes[sim.fs._of(fd).ino]
+        if offset + length > len(ino.data):
+            sim.fs.ftruncate(fd, offset + length)
+
     def truncate(self, path, length):
+        if isinstance(path, int):
+            return self.ftruncate(path, length)
         fd = self.open(path, _os.O_WRONLY)
         try:
             self.ftruncate(fd, length)
